@@ -10,6 +10,8 @@ import Mathlib.Order.Basic
 import Mathlib.Algebra.Order.Field.Basic
 import Mathlib.Tactic
 
+set_option linter.unusedSectionVars false
+
 open Livetime
 
 namespace C14
@@ -126,25 +128,70 @@ theorem c14_between_eq_inter (ivs : List (F × F)) (t0 t1 t : F) :
   · rintro ⟨⟨p, hp, hp1, hp2⟩, h0, h1⟩
     refine ⟨((if p.1 ≤ t0 then t0 else p.1), (if t1 < p.2 then t1 else p.2)), ?_, ?_, ?_⟩
     · simp only [List.mem_map, List.mem_filter, Bool.and_eq_true, decide_eq_true_eq]
-      exact ⟨p, ⟨hp, lt_of_le_of_lt h0 hp2, le_trans hp1 (le_of_lt h1)⟩, rfl⟩
+      exact ⟨p, ⟨hp, lt_of_le_of_lt h0 hp2, lt_of_le_of_lt hp1 h1⟩, rfl⟩
     · simp only; split_ifs <;> assumption
     · simp only; split_ifs <;> assumption
 
-/-- **window query, as coded**: on sorted non-overlapping intervals and `t0 ≤ t1` the index
-arithmetic of `get_uptime_intervals_between` (digitize, parity adjustment, slice of the flat edge
-array, the early return for an empty intersection) never raises and returns exactly the
-specification form — hence, with `c14_between_eq_inter`, exactly on-time ∩ window. -/
-theorem c14_between_idx_refines (ivs : List (F × F)) (t0 t1 : F) (h01 : t0 ≤ t1)
+/-- **window query, as coded**: on sorted non-overlapping intervals and a non-empty window
+`t0 < t1` the index arithmetic of `get_uptime_intervals_between` (digitize for the lower bound,
+digitize(right=True) for the excluded upper bound, parity adjustment, slice of the flat edge
+array, the early returns) never raises and returns exactly the specification form — hence, with
+`c14_between_eq_inter`, exactly on-time ∩ window. -/
+theorem c14_between_idx_refines (ivs : List (F × F)) (t0 t1 : F) (h01 : t0 < t1)
     (hs : C14.Sorted ivs) : betweenIdx ivs t0 t1 = some (betweenSpec ivs t0 t1) :=
   C14.betweenIdx_eq_spec ivs t0 t1 h01 hs
 
-/-- the two statements combined, for the function the code implements -/
-theorem c14_between_idx_eq_inter (ivs : List (F × F)) (t0 t1 : F) (h01 : t0 ≤ t1)
-    (hs : C14.Sorted ivs) :
+/-- an empty or reversed window yields the empty array (for any interval list) -/
+theorem c14_between_idx_empty_window (ivs : List (F × F)) (t0 t1 : F) (h : t1 ≤ t0) :
+    betweenIdx ivs t0 t1 = some [] :=
+  C14.betweenIdx_empty_window ivs t0 t1 h
+
+/-- the two statements combined, for the function the code implements and **every** window -/
+theorem c14_between_idx_eq_inter (ivs : List (F × F)) (t0 t1 : F) (hs : C14.Sorted ivs) :
     ∃ r, betweenIdx ivs t0 t1 = some r ∧
       ∀ t, C14.InOn r t ↔ (isOn ivs t = true ∧ t0 ≤ t ∧ t < t1) := by
-  refine ⟨betweenSpec ivs t0 t1, c14_between_idx_refines ivs t0 t1 h01 hs, fun t => ?_⟩
-  rw [c14_between_eq_inter, c14_is_on_iff ivs t hs]
+  by_cases h01 : t0 < t1
+  · refine ⟨betweenSpec ivs t0 t1, c14_between_idx_refines ivs t0 t1 h01 hs, fun t => ?_⟩
+    rw [c14_between_eq_inter, c14_is_on_iff ivs t hs]
+  · refine ⟨[], c14_between_idx_empty_window ivs t0 t1 (not_lt.mp h01), fun t => ?_⟩
+    constructor
+    · rintro ⟨q, hq, _⟩; simp at hq
+    · rintro ⟨_, h0, h1⟩
+      exact absurd (lt_of_le_of_lt h0 h1) h01
+
+/-- **no degenerate rows**: if every up-time interval has positive length, every returned row
+has positive length (in particular a window ending at the lower edge of an interval, or lying in
+a gap, returns no `[a, a)` row). -/
+theorem c14_between_rows_pos (ivs : List (F × F)) (t0 t1 : F) (h01 : t0 < t1)
+    (hpos : ∀ p ∈ ivs, p.1 < p.2) : ∀ q ∈ betweenSpec ivs t0 t1, q.1 < q.2 := by
+  intro q hq
+  unfold betweenSpec at hq
+  simp only [List.mem_map, List.mem_filter, Bool.and_eq_true, decide_eq_true_eq] at hq
+  obtain ⟨p, ⟨hp, hpb, hpa⟩, rfl⟩ := hq
+  have := hpos p hp
+  simp only
+  split_ifs <;> assumption
+
+/-- **"empty when there is none", at the level of the returned array**: for intervals of
+positive length, a window without on-time returns the empty array from the index arithmetic. -/
+theorem c14_between_empty_array (ivs : List (F × F)) (t0 t1 : F) (hs : C14.Sorted ivs)
+    (hpos : ∀ p ∈ ivs, p.1 < p.2)
+    (hnone : ∀ t, C14.InOn ivs t → ¬ (t0 ≤ t ∧ t < t1)) : betweenIdx ivs t0 t1 = some [] := by
+  by_cases h01 : t0 < t1
+  · rw [c14_between_idx_refines ivs t0 t1 h01 hs]
+    congr 1
+    rw [List.eq_nil_iff_forall_not_mem]
+    intro q hq
+    have hq' := hq
+    unfold betweenSpec at hq
+    simp only [List.mem_map, List.mem_filter, Bool.and_eq_true, decide_eq_true_eq] at hq
+    obtain ⟨p, ⟨hp, hpb, hpa⟩, rfl⟩ := hq
+    have hpp := hpos p hp
+    -- the left end of the clipped row is a point of on-time inside the window
+    by_cases ha : p.1 ≤ t0
+    · exact hnone t0 ⟨p, hp, ha, hpb⟩ ⟨le_refl _, h01⟩
+    · exact hnone p.1 ⟨p, hp, le_refl _, hpp⟩ ⟨le_of_lt (not_le.mp ha), hpa⟩
+  · exact c14_between_idx_empty_window ivs t0 t1 (not_lt.mp h01)
 
 /-- every returned interval lies inside the window and inside one original interval -/
 theorem c14_between_within (ivs : List (F × F)) (t0 t1 : F) (h01 : t0 ≤ t1)
@@ -186,6 +233,24 @@ theorem c14_integrity_iff (edges : List F) :
     | cons b rest' =>
       simp only [integrity, Bool.and_eq_true, decide_eq_true_eq, List.isChain_cons_cons]
       rw [ih]
+
+/-- `assert_mjd_intervals_integrity` accepts exactly the sorted, non-overlapping interval lists
+of the hypotheses used throughout this file. -/
+theorem c14_integrity_sorted (ivs : List (F × F)) : integrity (flat ivs) = true ↔ C14.Sorted ivs := by
+  rw [c14_integrity_iff, C14.Sorted, List.isChain_iff_pairwise]
+
+/-- in a sorted interval list every interval has `start ≤ stop` -/
+theorem C14.sorted_le (ivs : List (F × F)) (hs : C14.Sorted ivs) : ∀ p ∈ ivs, p.1 ≤ p.2 := by
+  induction ivs with
+  | nil => intro p hp; simp at hp
+  | cons q rest ih =>
+    intro p hp
+    unfold C14.Sorted at hs ih
+    rw [C14.flat_cons] at hs
+    simp only [List.pairwise_cons] at hs
+    rcases List.mem_cons.mp hp with rfl | hp
+    · exact hs.1 _ (by simp)
+    · exact ih hs.2.2 p hp
 
 section field
 variable {K : Type} [Field K] [LinearOrder K] [IsStrictOrderedRing K]
@@ -266,7 +331,7 @@ theorem c14_subset_livetime (ivs : List (K × K)) (t0 t1 : K) (h01 : t0 ≤ t1)
     have hu : ∀ t, C14.uptoSpec (p :: rest) t = (min p.2 t - min p.1 t) + C14.uptoSpec rest t := by
       intro t; simp [C14.uptoSpec]
     rw [C14.betweenSpec_cons, hu t1, hu t0]
-    by_cases hc : t0 < p.2 ∧ p.1 ≤ t1
+    by_cases hc : t0 < p.2 ∧ p.1 < t1
     · rw [if_pos hc]
       have : C14.total (((if p.1 ≤ t0 then t0 else p.1), (if t1 < p.2 then t1 else p.2)) :: betweenSpec rest t0 t1)
           = ((if t1 < p.2 then t1 else p.2) - (if p.1 ≤ t0 then t0 else p.1)) + C14.total (betweenSpec rest t0 t1) := by
@@ -274,7 +339,7 @@ theorem c14_subset_livetime (ivs : List (K × K)) (t0 t1 : K) (h01 : t0 ≤ t1)
       rw [this, ih']
       obtain ⟨h1, h2⟩ := hc
       have e1 : min p.2 t0 = t0 := min_eq_right (le_of_lt h1)
-      have e2 : min p.1 t1 = p.1 := min_eq_left h2
+      have e2 : min p.1 t1 = p.1 := min_eq_left (le_of_lt h2)
       rw [e1, e2]
       by_cases ha : p.1 ≤ t0 <;> by_cases hb : t1 < p.2
       · rw [if_pos ha, if_pos hb, min_eq_left ha, min_eq_right (le_of_lt hb)]; ring
@@ -284,9 +349,9 @@ theorem c14_subset_livetime (ivs : List (K × K)) (t0 t1 : K) (h01 : t0 ≤ t1)
     · rw [if_neg hc, ih']
       have : min p.2 t1 - min p.1 t1 - (min p.2 t0 - min p.1 t0) = 0 := by
         by_cases h1 : t0 < p.2
-        · have h2 : t1 < p.1 := not_le.mp (fun h => hc ⟨h1, h⟩)
-          rw [min_eq_right (le_of_lt (lt_of_lt_of_le h2 hp)), min_eq_right (le_of_lt h2),
-            min_eq_right (le_of_lt h1), min_eq_right (le_trans h01 (le_of_lt h2))]; ring
+        · have h2 : t1 ≤ p.1 := not_lt.mp (fun h => hc ⟨h1, h⟩)
+          rw [min_eq_right (le_trans h2 hp), min_eq_right h2,
+            min_eq_right (le_of_lt h1), min_eq_right (le_trans h01 h2)]; ring
         · have h1' : p.2 ≤ t0 := not_lt.mp h1
           rw [min_eq_left (le_trans h1' h01), min_eq_left (le_trans hp (le_trans h1' h01)),
             min_eq_left h1', min_eq_left (le_trans hp h1')]; ring
@@ -294,20 +359,154 @@ theorem c14_subset_livetime (ivs : List (K × K)) (t0 t1 : K) (h01 : t0 ≤ t1)
 
 end field
 
-section history
-variable {K : Type} [LE K] [DecidableLE K] [Add K] [Sub K] [Mul K] [OfNat K 0]
+section composite
+variable {K : Type} [Field K] [LinearOrder K] [IsStrictOrderedRing K]
 
-/-- **history independence of the object**: after any history of queries and assignments of new
-up-time intervals (public setter), the object holds the last assigned interval list … -/
+/-- every edge of the window result is an edge-bounded value: at least any lower bound of the
+input edges (used for sortedness of the result) -/
+theorem C14.between_lb (ivs : List (K × K)) (t0 t1 lb : K) (h01 : t0 < t1)
+    (hlb : ∀ e ∈ flat ivs, lb ≤ e) : ∀ e ∈ flat (betweenSpec ivs t0 t1), lb ≤ e := by
+  intro e he
+  unfold flat at he
+  simp only [List.mem_flatMap] at he
+  obtain ⟨q, hq, heq⟩ := he
+  unfold betweenSpec at hq
+  simp only [List.mem_map, List.mem_filter, Bool.and_eq_true, decide_eq_true_eq] at hq
+  obtain ⟨p, ⟨hp, hpb, hpa⟩, rfl⟩ := hq
+  have h1 : lb ≤ p.1 := hlb _ (C14.mem_flat_fst hp)
+  have h2 : lb ≤ p.2 := hlb _ (C14.mem_flat_snd hp)
+  simp only [List.mem_cons, List.not_mem_nil, or_false] at heq
+  rcases heq with rfl | rfl
+  · split_ifs with h
+    · exact le_trans h1 h
+    · exact h1
+  · split_ifs with h
+    · exact le_trans h1 (le_of_lt hpa)
+    · exact h2
+
+/-- **the window result is again a valid interval array** (sorted, non-overlapping), so the
+`Livetime` constructed from it in `get_data_subset` passes its integrity check. -/
+theorem c14_between_sorted (ivs : List (K × K)) (t0 t1 : K) (h01 : t0 < t1) (hs : C14.Sorted ivs) :
+    C14.Sorted (betweenSpec ivs t0 t1) := by
+  induction ivs with
+  | nil => simp [C14.Sorted, betweenSpec, flat]
+  | cons p rest ih =>
+    obtain ⟨a, b⟩ := p
+    unfold C14.Sorted at hs ih ⊢
+    rw [C14.flat_cons] at hs
+    simp only [List.pairwise_cons] at hs
+    obtain ⟨ha, hb, hrest⟩ := hs
+    have hab : a ≤ b := ha b (by simp)
+    rw [C14.betweenSpec_cons]
+    by_cases hc : t0 < (a, b).2 ∧ (a, b).1 < t1
+    · rw [if_pos hc, C14.flat_cons]
+      simp only at hc ⊢
+      obtain ⟨h0b, ha1⟩ := hc
+      have hq2 : (if t1 < b then t1 else b) ≤ b := by split_ifs with h <;> [exact le_of_lt h; exact le_refl _]
+      have hq12 : (if a ≤ t0 then t0 else a) ≤ (if t1 < b then t1 else b) := by
+        split_ifs with h1 h2 h2
+        · exact le_of_lt h01
+        · exact le_of_lt h0b
+        · exact le_of_lt ha1
+        · exact hab
+      have hlater : ∀ e ∈ flat (betweenSpec rest t0 t1), b ≤ e := C14.between_lb rest t0 t1 b h01 hb
+      refine List.pairwise_cons.mpr ⟨?_, List.pairwise_cons.mpr ⟨?_, ih hrest⟩⟩
+      · intro e he
+        rcases List.mem_cons.mp he with rfl | he
+        · exact hq12
+        · exact le_trans hq12 (le_trans hq2 (hlater e he))
+      · intro e he
+        exact le_trans hq2 (hlater e he)
+    · rw [if_neg hc]; exact ih hrest
+
+/-- **data subset, composed for the code-shaped model**: for sorted intervals and a window
+`t0 < t1`, `get_data_subset` does not raise; it keeps exactly the events inside the window,
+returns exactly on-time ∩ window as a valid interval array, and its live time is the on-time
+inside the window, `uptoSpec t1 − uptoSpec t0`. -/
+theorem c14_subset (ivs : List (K × K)) (times : List K) (t0 t1 : K) (h01 : t0 < t1)
+    (hs : C14.Sorted ivs) :
+    ∃ r lt, dataSubset ivs times t0 t1 = some (subsetMask times t0 t1, r, lt) ∧ C14.Sorted r ∧
+      (∀ t, C14.InOn r t ↔ (isOn ivs t = true ∧ t0 ≤ t ∧ t < t1)) ∧
+      lt = C14.uptoSpec ivs t1 - C14.uptoSpec ivs t0 := by
+  have hsr := c14_between_sorted ivs t0 t1 h01 hs
+  have hw : ∀ p ∈ ivs, p.1 ≤ p.2 := C14.sorted_le ivs hs
+  refine ⟨betweenSpec ivs t0 t1, livetimeSeq (betweenSpec ivs t0 t1), ?_, hsr, ?_, ?_⟩
+  · unfold dataSubset
+    rw [c14_between_idx_refines ivs t0 t1 h01 hs]
+    simp only
+    rw [if_pos ((c14_integrity_sorted _).mpr hsr)]
+  · intro t
+    rw [c14_between_eq_inter, c14_is_on_iff ivs t hs]
+  · have h2 : livetimeSeq (betweenSpec ivs t0 t1) = C14.total (betweenSpec ivs t0 t1) := by
+      unfold livetimeSeq; rw [C14.cumOntime_eq, C14.cumFrom_getLast]; ring
+    rw [h2, c14_subset_livetime ivs t0 t1 (le_of_lt h01) hw]
+
+/-- **windowed draw, composed for the code-shaped model** (`draw_ontimes(t_min, t_max)` with the
+`None` defaults, the restriction by the index arithmetic and the inverse CDF): the drawn time is
+on-time of the original intervals and inside the effective window. -/
+theorem c14_drawWin (ivs : List (K × K)) (tmin tmax : Option K) (f l : K × K) (u : K)
+    (hs : C14.Sorted ivs) (hf : ivs.head? = some f) (hl : ivs.getLast? = some l)
+    (hsome : tmin.isSome ∨ tmax.isSome)
+    (hab : tmin.getD f.1 < tmax.getD l.2)
+    (hL : 0 < C14.total (betweenSpec ivs (tmin.getD f.1) (tmax.getD l.2)))
+    (hu0 : 0 ≤ u) (hu1 : u < 1) :
+    ∃ x, drawWin ivs tmin tmax u = some x ∧ isOn ivs x = true ∧
+      tmin.getD f.1 ≤ x ∧ x < tmax.getD l.2 := by
+  have hw : ∀ p ∈ ivs, p.1 ≤ p.2 := C14.sorted_le ivs hs
+  obtain ⟨x, hx, hon, h0, h1⟩ :=
+    c14_draw_in_window ivs (tmin.getD f.1) (tmax.getD l.2) u hw (le_of_lt hab) hL hu0 hu1
+  refine ⟨x, ?_, (c14_is_on_iff ivs x hs).mpr hon, h0, h1⟩
+  have hb := c14_between_idx_refines ivs _ _ hab hs
+  unfold drawWin
+  cases tmin <;> cases tmax <;> simp_all
+
+/-- without bounds the draw is the plain inverse CDF over the whole live time -/
+theorem c14_drawWin_unbounded (ivs : List (K × K)) (u : K) :
+    drawWin ivs none none u = drawOn ivs u := by
+  simp [drawWin]
+
+end composite
+
+section history
+variable {K : Type} [Field K] [LinearOrder K] [IsStrictOrderedRing K]
+
+/-- **the object never holds an invalid interval list**: the setter validates before it assigns. -/
+theorem c14_history_sorted (held : List (K × K)) (ops : List (Op K)) (h : C14.Sorted held) :
+    C14.Sorted (objRun held ops).1 := by
+  induction ops generalizing held with
+  | nil => exact h
+  | cons op ops ih =>
+    cases op with
+    | setIvs ivs =>
+      simp only [objRun, objStep]
+      by_cases hi : integrity (flat ivs) = true
+      · rw [if_pos hi]; exact ih ivs ((c14_integrity_sorted ivs).mp hi)
+      · rw [if_neg hi]; exact ih held h
+    | _ => simpa [objRun, objStep] using ih held h
+
+/-- after any history of queries and (accepted or rejected) assignments the object holds the last
+accepted interval list … -/
 theorem c14_history_holds_last_set (held : List (K × K)) (ops : List (Op K)) :
     (objRun held ops).1 = lastSet held ops := by
   induction ops generalizing held with
   | nil => rfl
   | cons op ops ih =>
-    cases op <;> simp [objRun, objStep, lastSet, ih]
+    cases op with
+    | setIvs ivs =>
+      simp only [objRun, objStep, lastSet]
+      by_cases hi : integrity (flat ivs) = true
+      · rw [if_pos hi, if_pos hi]; exact ih ivs
+      · rw [if_neg hi, if_neg hi]; exact ih held
+    | _ => simpa [objRun, objStep, lastSet] using ih held
 
-/-- … and therefore a query after the history is answered exactly as a freshly constructed
-object holding those intervals answers it (all the theorems above then apply to it). -/
+/-- … a rejected assignment answers `err` and leaves the held list unchanged … -/
+theorem c14_history_rejected_keeps (held ivs : List (K × K)) (h : ¬ C14.Sorted ivs) :
+    objStep held (.setIvs ivs) = (held, .err) := by
+  have : ¬ integrity (flat ivs) = true := fun hi => h ((c14_integrity_sorted ivs).mp hi)
+  simp [objStep, this]
+
+/-- … and a query after the history is answered exactly as a freshly constructed object holding
+those (sorted, by `c14_history_sorted`) intervals answers it, so all theorems of this file apply. -/
 theorem c14_history_query_fresh (held : List (K × K)) (ops : List (Op K)) (q : Op K)
     (hq : ∀ ivs, q ≠ .setIvs ivs) :
     (objRun held (ops ++ [q])).2.getLast? = some (answer (lastSet held ops) q) := by
@@ -319,7 +518,9 @@ theorem c14_history_query_fresh (held : List (K × K)) (ops : List (Op K)) (q : 
   | cons op ops ih =>
     have h := ih (objStep held op).1
     have hl : lastSet held (op :: ops) = lastSet (objStep held op).1 ops := by
-      cases op <;> simp [lastSet, objStep]
+      cases op with
+      | setIvs ivs => by_cases hi : integrity (flat ivs) = true <;> simp [lastSet, objStep, hi]
+      | _ => simp [lastSet, objStep]
     rw [hl, ← h]
     simp only [List.cons_append, objRun]
     have hne : (objRun (objStep held op).1 (ops ++ [q])).2 ≠ [] := by
@@ -336,6 +537,9 @@ example : C14.Sorted ([(0, 2), (2, 4), (6, 6), (8, 12)] : List (ℤ × ℤ)) := 
 example : isOn ([(0, 2), (2, 4), (6, 6), (8, 12)] : List (ℤ × ℤ)) 2 = true := by decide
 example : isOn ([(0, 2), (2, 4), (6, 6), (8, 12)] : List (ℤ × ℤ)) 6 = false := by decide
 example : betweenSpec ([(0, 2), (2, 4), (6, 6), (8, 12)] : List (ℤ × ℤ)) 5 7 = [(6, 6)] := by decide
+example : betweenIdx ([(0, 2), (4, 6)] : List (ℤ × ℤ)) (-1) 0 = some [] := by decide
+example : betweenIdx ([(0, 2), (4, 6)] : List (ℤ × ℤ)) 3 4 = some [] := by decide
+example : betweenIdx ([(0, 2), (4, 6)] : List (ℤ × ℤ)) 1 1 = some [] := by decide
 example : betweenIdx ([(0, 2), (2, 4), (8, 12)] : List (ℤ × ℤ)) 5 7 = some [] := by decide
 example : betweenIdx ([(0, 2), (2, 4), (8, 12)] : List (ℤ × ℤ)) 1 9 = some [(1, 2), (2, 4), (8, 9)] := by decide
 example : C14.Sorted ([(0, 2), (2, 4), (6, 6), (8, 12)] : List (ℚ × ℚ)) := by
